@@ -10,6 +10,7 @@
 import Tsg.Proofs.Extends
 import Tsg.Sem.Lazy
 import Tsg.Proofs.DebugNeutral
+import Tsg.Proofs.LazyDebugNeutral
 
 namespace C15
 
@@ -89,5 +90,20 @@ example : DebugSim.AttrsClean ["dl", "dv", "dm"] (DebugSim.stmtsAttrs [Stmt.attr
   simp [DebugSim.stmtsAttrs, DebugSim.stmtAttrs] at ha
   subst ha
   decide
+
+/-- **Debug attributes are neutral (lazy mode), for whole programs**: the same statement for `Lazy.run`, both phases.
+The private states of the two runs are not equal here — an `edge` statement queued by the run with debug attributes
+carries the location attribute — so the simulation relation compares them after removing the debug attributes of
+queued `edge` statements, and carries the invariant that the attribute names of queued `attr` statements are not debug
+names (Tsg/Proofs/LazyDebugNeutral.lean; the framework of Tsg/Proofs/DebugSim.lean is generic in that relation). -/
+theorem C15_lazy_neutral (file : File) (tree : Tree) (oracle : Oracle) (globals : GlobalsM) (la va ma : String)
+    (cancelAt : Option Nat) (fuel ef : Nat) (merged : List QMatch) (g0 : CGraph)
+    (hd1 : la ≠ va) (hd2 : la ≠ ma) (hd3 : va ≠ ma)
+    (hstanzas : ∀ st ∈ file.stanzas, DebugSim.AttrsClean [la, va, ma] (DebugSim.stmtsAttrs st.stmts))
+    (hsh : ∀ sh ∈ file.shorthands, DebugSim.AttrsClean [la, va, ma] sh.attrs) :
+    let plain := Lazy.run file tree oracle globals none none none cancelAt fuel ef merged g0
+    let dbg := Lazy.run file tree oracle globals (some la) (some va) (some ma) cancelAt fuel ef merged g0
+    dbg.outcome = plain.outcome ∧ strip [la, va, ma] dbg.graph = strip [la, va, ma] plain.graph ∧ dbg.polls = plain.polls :=
+  DebugSim.lazy_debug_neutral file tree oracle globals la va ma cancelAt fuel ef merged g0 hd1 hd2 hd3 hstanzas hsh
 
 end C15
